@@ -731,7 +731,9 @@ type Session struct {
 	MR    metadata.Reader
 	VR    VR
 	Cache cache.BlobCache
-	CKind string // mem | dir | dirdirect
+	// Win: the hook wrapper the reader under test sees instead of Cache (window sessions only; nil otherwise)
+	Win   *WindowCache
+	CKind string // mem | dir | dirdirect | win-l<memory LRU entries>-f<descriptor LRU entries>
 	CDir  string
 	Files []*File
 	Chs   []*Chunk
@@ -777,6 +779,12 @@ func NewCache(k string) (cache.BlobCache, string, error) {
 	if err != nil {
 		return nil, "", err
 	}
+	if lru, fds, ok := windowKind(k); ok {
+		// the directory cache with a SMALL memory LRU and descriptor LRU (0 = the defaults of the
+		// cache package): entries are evicted and their buffers recycled while the session runs
+		c, err := cache.NewDirectoryCache(dir, cache.DirectoryCacheConfig{SyncAdd: true, MaxLRUCacheEntry: lru, MaxCacheFds: fds})
+		return c, dir, err
+	}
 	// "dir": every entry stays in the in-memory LRU (so Get never hands out an *os.File and the
 	// answer of GetPassthroughFd does not depend on LRU evictions); "dirdirect": files only.
 	c, err := cache.NewDirectoryCache(dir, cache.DirectoryCacheConfig{SyncAdd: true, Direct: k == "dirdirect",
@@ -807,6 +815,12 @@ func OpenSession(out *verifutil.Out, rnd *verifutil.Rand, st Stack, b *Blob, ope
 		return nil, err
 	}
 	s.Cache, s.CDir = c, dir
+	if _, _, ok := windowKind(ckind); ok {
+		// the reader under test talks to the cache through the hook wrapper; the oracle inspects the
+		// real cache directly (s.Cache) so that its look-ups never run a hook
+		s.Win = &WindowCache{BlobCache: c}
+		c = s.Win
+	}
 	vr, err := st.NewReader(mr, c)
 	if err != nil {
 		mr.Close()
@@ -1639,7 +1653,7 @@ func (s *Session) Read(f *File, off, n int64) error {
 
 // Pass = GetPassthroughFd on f (then the file is read back through the fd).
 func (s *Session) Pass(f *File, mergeBuf int64, workers int) error {
-	if s.CKind == "dir" {
+	if s.CKind == "dir" || s.Win != nil {
 		// whether the directory cache hands out an *os.File depends on its in-memory LRU and on
 		// how each entry was added (cache.Direct()); passthrough is driven on mem and dirdirect
 		return nil
